@@ -938,7 +938,7 @@ func (m *Manager) configurePersistedExpiry(ctx *loadContext) {
 func (m *Manager) processDelayedWills(ctx *loadContext) {
 	for _, will := range ctx.delayedWills {
 		if w, ok := will.(*mqttp.Publish); ok && w.Retain() {
-			if err := m.TopicsMgr.Retain(w); err != nil {
+			if err := m.TopicsMgr.Retain(retainedWill(w)); err != nil {
 				m.log.Error("Retain delayed will", zap.Error(err))
 			}
 		}
